@@ -69,6 +69,8 @@ class Interp:
         self._alias = {}
         self._keep = []         # keeps records alive so that id()-based region names stay unique
         self.cur_obj = None
+        self.freed = set()
+        self.heap = 0
 
     # ---- memory ------------------------------------------------------------
     def fault(self, f, st, what):
@@ -78,6 +80,11 @@ class Interp:
         if not isinstance(p, P) or p.r not in self.mem:
             raise AnalysisBroken('%s: load through an unknown pointer at %s' % (f.short, f.loc(st['i'])))
         reg = self.mem[p.r]
+        if isinstance(reg, dict):
+            return p            # "the object at p": records are handled by reference
+        if p.r in self.freed:
+            self.fault(f, st, 'read of %s after it was deleted' % p.r)
+            return None
         if not (0 <= p.o < len(reg)):
             self.fault(f, st, 'read of %s[%d] outside its %d cell(s)' % (p.r, p.o, len(reg)))
             return None
@@ -87,6 +94,9 @@ class Interp:
         if not isinstance(p, P) or p.r not in self.mem:
             raise AnalysisBroken('%s: store through an unknown pointer at %s' % (f.short, f.loc(st['i'])))
         reg = self.mem[p.r]
+        if p.r in self.freed:
+            self.fault(f, st, 'write of %s after it was deleted' % p.r)
+            return
         if not (0 <= p.o < len(reg)):
             self.fault(f, st, 'write of %s[%d] outside its %d cell(s)' % (p.r, p.o, len(reg)))
             return
@@ -94,11 +104,19 @@ class Interp:
 
     def span(self, f, st, p, n, what):
         """cells [p, p+n) or None (fault recorded)"""
+        if isinstance(n, int) and n == 0 and (p == 0 or isinstance(p, P)):
+            return [], 0
+        if p == 0 and isinstance(n, int):
+            self.fault(f, st, '%s of %d byte(s) through a null pointer' % (what, n))
+            return None
         if not isinstance(p, P) or p.r not in self.mem or not isinstance(n, int):
             raise AnalysisBroken('%s: %s with an unknown pointer or length at %s' % (f.short, what, f.loc(st['i'])))
         reg = self.mem[p.r]
         if n < 0 or n > (1 << 40):
             self.fault(f, st, '%s of %d byte(s): the length has wrapped' % (what, n))
+            return None
+        if p.r in self.freed and n > 0:
+            self.fault(f, st, '%s touches %s after it was deleted' % (what, p.r))
             return None
         if p.o < 0 or p.o + n > len(reg):
             self.fault(f, st, '%s touches %s[%d, %d) outside its %d cell(s)' % (what, p.r, p.o, p.o + n, len(reg)))
@@ -161,13 +179,13 @@ class Interp:
         args = [self.ev(f, a, env) for a in st.get('args', [])]
         if cls not in self.prog.classes:
             return args[0] if len(args) == 1 else None
-        if len(args) == 1 and self.record_of(args[0]) is not None and self.record_of(args[0]).get('__cls__') == cls:
-            cp = dict(self.record_of(args[0]))       # copy / move construction
+        tg = [g for g in self.prog.by_usr.get(st.get('usr'), ()) if g.d.get('ctor') and g.body is not None]
+        if not tg and len(args) == 1 and self.record_of(args[0]) is not None and self.record_of(args[0]).get('__cls__') == cls:
+            cp = dict(self.record_of(args[0]))       # implicit (memberwise) copy / move construction
             self._keep.append(cp)
             return self.ref(cp)
         rec = self.new_record(cls)
         self._keep.append(rec)
-        tg = [g for g in self.prog.by_usr.get(st.get('usr'), ()) if g.d.get('ctor')]
         if tg:
             g = tg[0]
             cenv = {p_['d']: wrap(a, p_.get('ct')) for p_, a in zip(g.params, args)}
@@ -211,6 +229,12 @@ class Interp:
 
     def _call(self, f, st, env):
         name = (st.get('fn') or (st.get('callee') or '').split('<')[0].split('::')[-1]).split('<')[0]
+        if (st.get('callee') or '').startswith('std::swap') and len(st.get('args', [])) == 2 and 'swap' not in self.hooks:
+            la, lb = self.lv(f, st['args'][0], env), self.lv(f, st['args'][1], env)
+            va, vb = self.read(f, st, la, env), self.read(f, st, lb, env)
+            self.write(f, st, la, vb, env)
+            self.write(f, st, lb, va, env)
+            return None
         args = [self.ev(f, a, env) for a in st.get('args', [])]
         objv = None
         if 'obj' in st and (f.s(f.strip_casts(st['obj'])) or {}).get('k') != 'CXXThisExpr':
@@ -473,7 +497,7 @@ class Interp:
                 return i        # a table looked up at an abstract index: the result depends on what the index depends on
             return self.read(f, st, self.lv(f, e, env), env)
         if k == 'CXXThisExpr':
-            return P('this', 0)
+            return self.ref(self.this) if isinstance(self.this, dict) and '__cls__' in self.this else P('this', 0)
         if k == 'ConditionalOperator':
             return self.ev(f, st['ch'][1] if self.truth(f, st['ch'][0], env) else st['ch'][2], env)
         if k == 'UnaryOperator':
@@ -534,6 +558,36 @@ class Interp:
             return wrap(self.arith(f, st, op, a, b), st.get('ct') or st.get('t'))
         if k in ('CXXNullPtrLiteralExpr', 'GNUNullExpr'):
             return 0
+        if k == 'CXXNewExpr':
+            self.heap += 1
+            if st.get('arr'):
+                n = self.ev(f, st['ch'][0], env) if st.get('ch') else None
+                if not isinstance(n, int):
+                    raise AnalysisBroken('%s: new[] with a size the replay keeps abstract (%s)' % (f.short, f.loc(e)))
+                if n > (1 << 32):
+                    self.fault(f, st, 'new[] of %d elements (the size has wrapped)' % n)
+                    raise _Abort()
+                name = 'heap#%d[%d]@%s' % (self.heap, n, st['l'])
+                self.mem[name] = ['uninit'] * n
+                return P(name, 0)
+            cls = (st.get('cat') or st.get('at') or '')
+            if cls in self.prog.classes:
+                rec = self.new_record(cls)
+                self._keep.append(rec)
+                return self.ref(rec)
+            raise AnalysisBroken('%s: new of a type the replay does not know (%s)' % (f.short, f.loc(e)))
+        if k == 'CXXDeleteExpr':
+            v = self.ev(f, st['ch'][0], env)
+            if v == 0:
+                return None
+            if not isinstance(v, P) or v.r not in self.mem:
+                raise AnalysisBroken('%s: delete of a pointer the replay does not hold (%s)' % (f.short, f.loc(e)))
+            if v.r in self.freed:
+                self.fault(f, st, '%s is deleted twice' % v.r)
+            elif v.o != 0:
+                self.fault(f, st, 'delete of a pointer %d byte(s) into %s' % (v.o, v.r))
+            self.freed.add(v.r)
+            return None
         if k in ('CXXConstructExpr', 'CXXTemporaryObjectExpr'):
             return self.construct(f, st, env)
         if k in q.CALL_KINDS:
@@ -550,6 +604,8 @@ class Interp:
             if op == '-' and isinstance(a, P) and isinstance(b, P) and a.r == b.r:
                 return a.o - b.o
             if op in ('==', '!=') and (a is None or b is None or a == 0 or b == 0):
+                return int(op == '!=')
+            if op in ('==', '!=') and isinstance(a, P) and isinstance(b, P) and a.r != b.r:
                 return int(op == '!=')
             if op in ('==', '!=', '<', '<=', '>', '>=') and isinstance(a, P) and isinstance(b, P) and a.r == b.r:
                 return int({'==': a.o == b.o, '!=': a.o != b.o, '<': a.o < b.o, '<=': a.o <= b.o, '>': a.o > b.o, '>=': a.o >= b.o}[op])
